@@ -11,11 +11,11 @@ pub fn floor(x: i32) -> i32 {
 }
 
 pub fn round(x: i32) -> i32 {
-    floor(x + 32)
+    floor(x.wrapping_add(32))
 }
 
 pub fn ceil(x: i32) -> i32 {
-    floor(x + 63)
+    floor(x.wrapping_add(63))
 }
 
 fn floor_pad(x: i32, n: i32) -> i32 {
